@@ -1186,7 +1186,15 @@ class Interp:
                 guard_term = T("getitem", it.term.args[0], T("lv", lid))
                 it = V("range", T("range", self.api.dim_term(Dim(0)), self.api.dim_term(msh[0])), labels=it.labels, extra=(Dim(0), msh[0]))
         iter_term = it.term if it is not None else T("while")
-        if is_for and it is not None and (it.kind == "zip" or (it.kind == "enumerate" and it.items and it.items[0].kind == "zip")):
+        if is_for and it is not None and it.kind == "enumerate" and isinstance(it.extra, tuple) and it.extra and it.extra[0] == "start":
+            # for k, x in enumerate(xs, s): the passes are numbered s .. s + n - 1 like those of `for k in range(s, s + n)`
+            n_en = self.api.length_dim(self, it)
+            s_en = self.api.dim_of(it.extra[1]) if it.extra[1].kind == "int" else None
+            if os.environ.get("VERIF_DEBUG_IND"):
+                print("DBG enum-start", n_en, s_en, it.extra[1].kind, [self.api.shape_of(z) for z in (it.items[0].items or [])] if it.items[0].kind == "zip" else None)
+            if n_en is not None and n_en.known() and s_en is not None:
+                iter_term = T("range", self.api.dim_term(s_en), self.api.dim_term(s_en + n_en))
+        elif is_for and it is not None and it.kind in ("zip", "enumerate"):
             # for (a, b) in zip(x, y) / for k, (a, b) in enumerate(zip(x, y)): the passes are numbered 0 .. n-1 like
             # those of `for k in range(n)`; the elements are x[k], y[k] (bound by loop_element)
             n_zip = self.api.length_dim(self, it)
@@ -1216,6 +1224,8 @@ class Interp:
             for k, x in ctl:
                 extra = x.pc[base_len:]
                 cond = T("loopctl", k, self._conj(extra)) if extra else T("loopctl", k, lid)
+                if k == "continue" and extra:
+                    cond = self._conj(extra)  # `if g: continue` then the rest of the body: an ordinary two-way branch on g
                 if alive:
                     state.become(self.join_states(x, state, cond))
                 else:
